@@ -215,3 +215,23 @@ Proof.
             | context [match to_type ?x with _ => _ end] => destruct (to_type x)
             end); inversion H; subst; split; try reflexivity; apply Hid.
 Qed.
+
+(* after the repair of F-C02-2: placing an order that is already in the blotter raises and leaves every order's status as it was
+   (only update_client has run) *)
+Lemma tget_tupd name f l : (forall o, to_name (f o) = to_name o) -> tget name (tupd name f l) = option_map f (tget name l).
+Proof.
+  intros Hf. unfold tget. induction l as [|o r IH]; [reflexivity|]. cbn [tupd find]. destruct (to_name o =? name) eqn:E.
+  - cbn [find]. rewrite Hf, E. reflexivity.
+  - cbn [find]. rewrite E. exact IH.
+Qed.
+Lemma status_tupd_client name c l : map to_status (tupd name (fun o => {| to_name := to_name o; to_status := to_status o; to_bet := to_bet o; to_type := to_type o; to_persist := to_persist o; to_price := to_price o;
+                                          to_remaining := to_remaining o; to_in_blotter := to_in_blotter o; to_client := c; to_red := to_red o; to_newprice := to_newprice o; to_ctx := to_ctx o |}) l) = map to_status l.
+Proof. induction l as [|o r IH]; [reflexivity|]. cbn [tupd]. destruct (to_name o =? name); cbn [map to_status]; [reflexivity|f_equal; exact IH]. Qed.
+Theorem place_of_placed_order_changes_no_status ctl t os name mv ex force o t' os' res :
+  tget name os = Some o -> to_in_blotter o = true -> (ex && negb force && negb ctl) = false ->
+  do_req ctl t os (TPlace name mv ex force) = (t', os', res) -> res = TRaisedPlaced /\ t' = t /\ map to_status os' = map to_status os.
+Proof.
+  intros Hg Hb Hc H. cbn [do_req] in H. rewrite Hg in H. cbv zeta in H. rewrite Hc in H.
+  rewrite Hb in H.
+  inversion H; subst. split; [reflexivity|]. split; [reflexivity|]. apply status_tupd_client.
+Qed.
